@@ -11,6 +11,10 @@ Line protocol of the C17 model driver (table = the generated one):
   p <part> <mode>       parse(toXml(part), mode) into a fresh message                    -> `fields | unknown`
   r real                parse(toXml(pub), pub) then parseExtensions(content, sens)       -> `fields | unknown`
   r toxml               parse(toXml(pub), pub) then parse(toXml(sens), sens)             -> `fields | unknown`
+  c send                children handed to the stream by QXmppClient::sendSensitive = toXml(sendPathMode)
+  c recv                client receive path: parse(wire, receiveOuterMode); e2ee extension clears the fallback markers and
+                        runs parseExtensions(content(envelopeContentMode), receiveContentMode)    -> `fields | unknown`
+  c recvinj tag{ns} …   the same with extra plaintext elements appended to the wire stanza
   wf                    offending rows of the generated table (for the check's report)
 -/
 
@@ -72,6 +76,20 @@ def modeOf : String → Option Mode
 
 def content (m : Msg) : List Elem := writeExt T (rebase T "jabber:client" m) .sens
 
+/-- `tag{ns}` -/
+def parseElem (w : String) : Elem :=
+  match w.splitOn "{" with
+  | [t, r] => { tag := t, ns := (r.dropEnd 1).toString, val := "injected" }
+  | _ => { tag := w, ns := "", val := "injected" }
+
+open Qx.Generated.SceTable in
+/-- the receive path through the client, with the modes the translator read off QXmppClient.cpp / QXmppOmemoManager_p.cpp -/
+def clientReceive (m : Msg) (extra : List Elem) : PSt :=
+  let wire := writeMode T m sendPathMode ++ extra
+  let s1 := parseMode T wire receiveOuterMode true Msg.empty
+  let cont := writeExt T (rebase T "jabber:client" m) envelopeContentMode
+  parseMode T cont receiveContentMode false (s1.msg.set "fallbackMarkers" [])
+
 def stepLine (s : DSt) (line : String) : DSt × String :=
   match words line with
   | ["reset", spec] =>
@@ -91,6 +109,9 @@ def stepLine (s : DSt) (line : String) : DSt × String :=
     let s1 := parseMode T (writeMode T s.msg .pub) .pub true Msg.empty
     (s, showPSt (parseMode T (content s.msg) .sens false s1.msg))
   | ["r", "toxml"] => (s, showPSt (recoverToXml T s.msg))
+  | ["c", "send"] => (s, showInv (writeMode T s.msg Qx.Generated.SceTable.sendPathMode))
+  | ["c", "recv"] => (s, showPSt (clientReceive s.msg []))
+  | "c" :: "recvinj" :: es => (s, showPSt (clientReceive s.msg (es.map parseElem)))
   | ["wf"] =>
     (s, s!"write={offendingWrite T} parse={offendingParse T} clash={offendingClash T} toxml={offendingToXml T} rows={T.rows.length}")
   | _ => (s, "bad-op")
